@@ -240,6 +240,7 @@ type collResult struct {
 	StopErr string
 	Stopped bool // the history contained an explicit stop op
 	Leak    int  // goroutines alive after shutdown minus goroutines alive before Start
+	FloodLost int // flood op: spans of kept flood traces that never reached the transmission
 }
 
 func collRules(tab []collRule) *config.RulesBasedSamplerConfig {
@@ -558,6 +559,62 @@ func collRunOpts(in collInput, opts collOpts) (*collResult, error) {
 				sp.ArrivalTime = time.Now().Add(-time.Duration(s.Age))
 			}
 			runErr = observe(collObs{Kind: "span", W: w, Span: s})
+		case "flood":
+			// more decided traces than the outgoing queue holds while the upstream is stalled: op.Bytes
+			// one-span traces "f<k>" are buffered, decided by late ticks (their decisions are recorded,
+			// they leave the buffers, `send` hands them to the queue), then the upstream is released.
+			// Every span of a kept flood trace must reach the transmission. No model item: only the count.
+			n := int(op.Bytes)
+			tx.stall()
+			for k := 0; k < n; k++ {
+				id := fmt.Sprintf("f%d", k)
+				ev := &types.Event{Dataset: "ds", Environment: "env", APIKey: "key0123456789abcdefghij",
+					Data: types.NewPayload(conf, map[string]any{"sid": int64(-1 - k), "cls": int64(0)})}
+				coll.VerifC01ProcessSpan(coll.VerifC01WorkerForTrace(id), &types.Span{TraceID: id, Event: ev})
+			}
+			late := time.Unix(0, now+(1<<41))
+			for round := 0; round < n+2; round++ {
+				busy := false
+				for w := 0; w < nw; w++ {
+					if len(coll.VerifC01Buffer(w)) > len(prev[w]) {
+						busy = true
+						coll.VerifC01SendExpired(w, late)
+					}
+				}
+				if !busy {
+					break
+				}
+			}
+			keptN := 0
+			for k := 0; k < n; k++ {
+				id := fmt.Sprintf("f%d", k)
+				if kept, found := coll.VerifC01CheckTrace(coll.VerifC01WorkerForTrace(id), id); found && kept {
+					keptN++
+				}
+			}
+			tx.release()
+			if err := barrier(); err != nil {
+				return nil, err
+			}
+			got := 0
+			var rest []collFwd
+			for _, f := range tx.take() {
+				if f.Tid < 0 {
+					got++
+				} else {
+					rest = append(rest, f)
+				}
+			}
+			tx.mu.Lock()
+			tx.evs = append(rest, tx.evs...)
+			tx.mu.Unlock()
+			if in.Dry {
+				keptN = n
+			}
+			if keptN > got {
+				res.FloodLost += keptN - got
+			}
+			prev = snapshot()
 		case "tick":
 			w := ((op.W % nw) + nw) % nw
 			coll.VerifC01SendExpired(w, time.Unix(0, now))
@@ -971,8 +1028,8 @@ func collCoq(r *collResult) string {
 	if in.Flush {
 		flush = 1
 	}
-	return fmt.Sprintf("{| k_workers := %s; k_dry := %s; k_kept := %s; k_stop := %s; k_leak := %s; k_cfg := %s; k_tables := %s; k_ntr := %s; k_flush := %s; k_items := %s |}",
-		cq.N(uint64(nw)), cq.Bool(in.Dry), cq.N(uint64(collKept(in))), cq.N(collStopCode(r)), cq.N(uint64(r.Leak)), collCfgCoq(in.Cfg, len(in.Tables)), collTablesCoq(in.Tables),
+	return fmt.Sprintf("{| k_workers := %s; k_dry := %s; k_kept := %s; k_stop := %s; k_leak := %s; k_flood_lost := %s; k_cfg := %s; k_tables := %s; k_ntr := %s; k_flush := %s; k_items := %s |}",
+		cq.N(uint64(nw)), cq.Bool(in.Dry), cq.N(uint64(collKept(in))), cq.N(collStopCode(r)), cq.N(uint64(r.Leak)), cq.N(uint64(r.FloodLost)), collCfgCoq(in.Cfg, len(in.Tables)), collTablesCoq(in.Tables),
 		cq.N(uint64(r.NTr)), cq.N(uint64(flush)), cq.List(items))
 }
 
@@ -1083,7 +1140,7 @@ func collHeapNow() uint64 {
 	return s[0].Value.Uint64()
 }
 
-const collEmptyCase = "{| k_workers := 1%N; k_dry := false; k_kept := 10000%N; k_stop := 0%N; k_leak := 0%N; k_cfg := {| c_ver := 0%N; c_tt := 0%Z; c_sd := 0%Z; c_sl := 0%Z; c_me := 0%Z |}; k_tables := [[]]; k_ntr := 0%N; k_flush := 0%N; k_items := [] |}"
+const collEmptyCase = "{| k_workers := 1%N; k_dry := false; k_kept := 10000%N; k_stop := 0%N; k_leak := 0%N; k_flood_lost := 0%N; k_cfg := {| c_ver := 0%N; c_tt := 0%Z; c_sd := 0%Z; c_sl := 0%Z; c_me := 0%Z |}; k_tables := [[]]; k_ntr := 0%N; k_flush := 0%N; k_items := [] |}"
 
 func collTags(r *collResult) []string {
 	tags := []string{fmt.Sprintf("workers:%d", len(r.Obs[0].Bufs))}
